@@ -27,6 +27,14 @@ def check(run):
     snapshot(run, p)
     encfallback(run, p)
     globs(run, p)
+    from .c04 import split
+    split(run, p, p.cls('FilesComparison'))
+    run.rules['C11-SPLIT'] = run.rules.pop('C04-SPLIT') + (' (the generated stdout/stderr tests compare the captured output, a raw string that '
+                                                           'keeps its carriage returns, with a reference read in text mode: only str.splitlines treats \\r\\n, \\r and \\n alike)')
+    for o in run.obs:
+        if o.rule == 'C04-SPLIT':
+            o.rule = 'C11-SPLIT'
+    run.floors = [(('C11-SPLIT' if r == 'C04-SPLIT' else r), c, m) for r, c, m in run.floors]
     run.assume('file names of scripts and encodings are made of characters that need no escaping in Python source')
     run.trust('repr() of a str is a valid Python expression denoting it; os.path functions are pure')
 
